@@ -1,1 +1,145 @@
-(* C18 stub: to be written *)
+(* C18 — proofs about the shaped-RF-pulse model (Model/RFPulse.v) with the GENERATED matrices
+   T_op / Phi_op (Gen/Transition.v) and coefficient arrays E_op / P_op (Gen/Evolution.v). *)
+From Coq Require Import List ZArith Reals Lra Lia Psatz Bool.
+From Coquelicot Require Import Coquelicot.
+From EPG Require Import Scalar State Ops CInst Transition Evolution CoefT RFPulse.
+Import ListNotations.
+Local Open Scope R_scope.
+
+(* ------------------------------------------------------------------ 3x3 algebra *)
+Ltac mat_alg1 :=
+  apply mat3_eq; apply triple_eq;
+  cbn [mmul madd msub mscale rowmul dot col0 col1 col2 row0 row1 row2 fp fm fz tadd tsub tscale mzero t0 mid mv sv];
+  change (@kmul Cops) with Cmult; change (@kadd Cops) with Cplus; change (@ksub Cops) with Cminus;
+  change (@k0 Cops) with (RtoC 0); change (@k1 Cops) with (RtoC 1); apply C_eq; simpl; ring.
+Ltac tri_alg :=
+  apply triple_eq;
+  cbn [mmul rowmul dot col0 col1 col2 row0 row1 row2 fp fm fz tadd tsub tscale t0 mid mv sv];
+  change (@kmul Cops) with Cmult; change (@kadd Cops) with Cplus; change (@ksub Cops) with Cminus;
+  change (@k0 Cops) with (RtoC 0); change (@k1 Cops) with (RtoC 1); apply C_eq; simpl; ring.
+
+Ltac mat_algf :=
+  apply mat3_eq; apply triple_eq;
+  cbn [mmul madd msub mscale rowmul dot col0 col1 col2 row0 row1 row2 fp fm fz tadd tsub tscale mzero t0 mid mv sv];
+  change (@kmul Cops) with Cmult; change (@kadd Cops) with Cplus; change (@ksub Cops) with Cminus;
+  change (@k0 Cops) with (RtoC 0); change (@k1 Cops) with (RtoC 1); apply C_eq; simpl; field.
+
+Lemma mmul_assoc (A B D : mat3 Cops) : mmul A (mmul B D) = mmul (mmul A B) D.
+Proof. mat_alg1. Qed.
+Lemma mmul_id_l (A : mat3 Cops) : mmul mid A = A.
+Proof. mat_alg1. Qed.
+Lemma mmul_id_r (A : mat3 Cops) : mmul A mid = A.
+Proof. mat_alg1. Qed.
+Lemma mv_mmul (A B : mat3 Cops) x : mv (mmul A B) x = mv A (mv B x).
+Proof. tri_alg. Qed.
+Lemma mv_mid (x : triple Cops) : mv mid x = x.
+Proof. tri_alg. Qed.
+
+(* ------------------------------------------------------------------ z-rotations compose *)
+Lemma rotation_phi_add x y : mmul (rotation_phi x) (rotation_phi y) = rotation_phi (x + y).
+Proof.
+  unfold rotation_phi.
+  replace ((x + y) * PI / 180) with (x * PI / 180 + y * PI / 180) by field.
+  rewrite ?cos_neg, ?sin_neg, cos_plus, sin_plus. mat_alg1.
+Qed.
+
+Lemma rotation_phi_0 : rotation_phi 0 = mid.
+Proof.
+  unfold rotation_phi. replace (0 * PI / 180) with 0 by field.
+  rewrite ?Ropp_0, cos_0, sin_0. reflexivity.
+Qed.
+
+Lemma rotation_phi_inv_l x : mmul (rotation_phi (- x)) (rotation_phi x) = mid.
+Proof. rewrite rotation_phi_add. replace (- x + x) with 0 by ring. apply rotation_phi_0. Qed.
+Lemma rotation_phi_inv_r x : mmul (rotation_phi x) (rotation_phi (- x)) = mid.
+Proof. rewrite rotation_phi_add. replace (x + - x) with 0 by ring. apply rotation_phi_0. Qed.
+
+(* ------------------------------------------------------------------ x-rotations compose *)
+Lemma rotation_alpha_add a b : mmul (rotation_alpha a) (rotation_alpha b) = rotation_alpha (a + b).
+Proof.
+  unfold rotation_alpha.
+  set (ha := PI / 180 * a / 2). set (hb := PI / 180 * b / 2).
+  replace (PI / 180 * (a + b) / 2) with (ha + hb) by (unfold ha, hb; field).
+  replace (PI / 180 * (a + b)) with (2 * (ha + hb)) by (unfold ha, hb; field).
+  replace (PI / 180 * a) with (2 * ha) by (unfold ha; field).
+  replace (PI / 180 * b) with (2 * hb) by (unfold hb; field).
+  rewrite !sin_2a, !cos_2a, !cos_plus, !sin_plus.
+  generalize (sin ha) (cos ha) (sin hb) (cos hb). intros sa ca sb cb.
+  mat_algf.
+Qed.
+
+Lemma rotation_alpha_0 : rotation_alpha 0 = mid.
+Proof.
+  unfold rotation_alpha. replace (PI / 180 * 0 / 2) with 0 by field.
+  replace (PI / 180 * 0) with 0 by field. rewrite cos_0, sin_0.
+  apply mat3_eq; apply triple_eq; cbn [row0 row1 row2 fp fm fz mid];
+    change (@k0 Cops) with (RtoC 0); change (@k1 Cops) with (RtoC 1); apply C_eq; simpl; ring.
+Qed.
+
+(* ------------------------------------------------------------------ T_op: same axis => angles add *)
+Lemma sandwich_mul (P Pm A B : mat3 Cops) : mmul Pm P = mid ->
+  mmul (mmul P (mmul A Pm)) (mmul P (mmul B Pm)) = mmul P (mmul (mmul A B) Pm).
+Proof.
+  intros H.
+  rewrite <- (mmul_assoc P (mmul A Pm) _), <- (mmul_assoc A Pm _), (mmul_assoc Pm P _), H, mmul_id_l.
+  rewrite <- (mmul_assoc A B Pm). reflexivity.
+Qed.
+
+Theorem T_same_axis a1 a2 p : mmul (T_op a1 p) (T_op a2 p) = T_op (a1 + a2) p.
+Proof.
+  unfold T_op. rewrite !rotation_operator_struct.
+  rewrite (sandwich_mul _ _ _ _ (rotation_phi_inv_l p)), rotation_alpha_add. reflexivity.
+Qed.
+
+Lemma T_op_0 p : T_op 0 p = mid.
+Proof.
+  unfold T_op. rewrite rotation_operator_struct, rotation_alpha_0, mmul_id_l. apply rotation_phi_inv_r.
+Qed.
+
+(* ------------------------------------------------------------------ phase offset = conjugation by Phi *)
+Theorem phase_offset_identity o a p :
+  mmul (Phi_op o) (mmul (T_op a p) (Phi_op (- o))) = T_op a (p + o).
+Proof.
+  unfold Phi_op, T_op. rewrite !rotation_operator_struct.
+  replace (p + o) with (o + p) by ring.
+  replace (- (o + p)) with (- p + - o) by ring.
+  rewrite <- !rotation_phi_add, <- !mmul_assoc. reflexivity.
+Qed.
+
+(* T(-a, p +/- 180) = T(a, p): a negative real amplitude is a rotation about the same axis *)
+Lemma flip_alpha_pos a :
+  mmul (rotation_phi 180) (mmul (rotation_alpha (- a)) (rotation_phi (- 180))) = rotation_alpha a.
+Proof.
+  unfold rotation_phi, rotation_alpha.
+  replace (180 * PI / 180) with PI by field. replace (- 180 * PI / 180) with (- PI) by field.
+  replace (PI / 180 * - a / 2) with (- (PI / 180 * a / 2)) by field.
+  replace (PI / 180 * - a) with (- (PI / 180 * a)) by field.
+  rewrite ?Ropp_involutive, ?cos_neg, ?sin_neg, ?cos_PI, ?sin_PI.
+  mat_alg1.
+Qed.
+Lemma flip_alpha_neg a :
+  mmul (rotation_phi (- 180)) (mmul (rotation_alpha (- a)) (rotation_phi (- - 180))) = rotation_alpha a.
+Proof.
+  unfold rotation_phi, rotation_alpha.
+  replace (- - 180 * PI / 180) with PI by field. replace (- 180 * PI / 180) with (- PI) by field.
+  replace (PI / 180 * - a / 2) with (- (PI / 180 * a / 2)) by field.
+  replace (PI / 180 * - a) with (- (PI / 180 * a)) by field.
+  rewrite ?Ropp_involutive, ?cos_neg, ?sin_neg, ?cos_PI, ?sin_PI.
+  mat_alg1.
+Qed.
+
+Lemma T_flip_pos a p : T_op (- a) (p + 180) = T_op a p.
+Proof.
+  unfold T_op. rewrite !rotation_operator_struct.
+  replace (- (p + 180)) with (- 180 + - p) by ring.
+  rewrite <- !rotation_phi_add, <- !mmul_assoc.
+  rewrite (mmul_assoc (rotation_alpha (- a))), (mmul_assoc (rotation_phi 180)), flip_alpha_pos. reflexivity.
+Qed.
+Lemma T_flip_neg a p : T_op (- a) (p - 180) = T_op a p.
+Proof.
+  unfold T_op. rewrite !rotation_operator_struct.
+  replace (p - 180) with (p + - 180) by ring.
+  replace (- (p + - 180)) with (- - 180 + - p) by ring.
+  rewrite <- !rotation_phi_add, <- !mmul_assoc.
+  rewrite (mmul_assoc (rotation_alpha (- a))), (mmul_assoc (rotation_phi (- 180))), flip_alpha_neg. reflexivity.
+Qed.
